@@ -418,7 +418,10 @@ def helper_shape(h):
   if not body:
     return None
   # a decorated helper (lru_cache, a property builder, contextmanager ...) is not its body: it is never inlined
-  if any(norm(d_).split('(')[0].split('.')[-1] not in ('staticmethod', 'classmethod') for d_ in getattr(h.node, 'decorator_list', [])):
+  #  -- except a memoising decorator on a function that takes no instance (module level / static): its value is that of the body
+  decs_ = [norm(d_).split('(')[0].split('.')[-1] for d_ in getattr(h.node, 'decorator_list', [])]
+  plain_ = h.cls is None or 'staticmethod' in decs_
+  if any(d_ not in ('staticmethod', 'classmethod') and not (d_ in ('lru_cache', 'cache') and plain_) for d_ in decs_):
     return None
   a = h.node.args
   if a.vararg or a.kwarg:
